@@ -91,6 +91,83 @@ func (c *Ctx) versionedConstructor(r *Reconcile) {
 	if inner == nil || setRev == nil {
 		return
 	}
+	// every returned pod is built by newStatefulSetPod(S, ordinal) and stamped by setPodRevision(pod, R);
+	// path by path at the stamp: (S, R) is (current set, current revision) with the ordinal below the
+	// partition (or the legacy currentReplicas bound), or (update set, update revision) otherwise
+	below := c.Want(fn, fi.Decl.Body.Lbrace+1, `($1.Spec.UpdateStrategy.Type == "RollingUpdate" && $1.Spec.UpdateStrategy.RollingUpdate == nil && $2 < int($1.Status.CurrentReplicas)) || ($1.Spec.UpdateStrategy.RollingUpdate != nil && $1.Spec.UpdateStrategy.RollingUpdate.Partition != nil && $2 < int(*$1.Spec.UpdateStrategy.RollingUpdate.Partition))`, curSet, ord)
+	nBuild := 0
+	for _, build := range callsIn(fi.Decl.Body, false) {
+		if gf.StaticCallee(info, build) != inner.Obj {
+			continue
+		}
+		nBuild++
+		name := fmt.Sprintf("%s: build[%d]", fi.Obj.Name(), nBuild-1)
+		c.Check(fn.Term(build.Args[1]).Key() == fn.Term(ord).Key(), "C07.4-own-ordinal", name, build.Pos(),
+			"the pod is built for the constructor's own ordinal parameter", "the pod is built for a different ordinal than requested")
+		as, _ := stmtOf(fi.Decl.Body, build).(*ast.AssignStmt)
+		var pod types.Object
+		if as != nil && len(as.Lhs) == 1 && len(as.Rhs) == 1 {
+			if l, ok := as.Lhs[0].(*ast.Ident); ok {
+				pod = info.ObjectOf(l)
+			}
+		}
+		var stamp *ast.CallExpr
+		if pod != nil {
+			for _, call := range callsIn(fi.Decl.Body, false) {
+				if gf.StaticCallee(info, call) == setRev.Obj && call.Pos() > build.Pos() && stamp == nil {
+					if a0, ok := ast.Unparen(call.Args[0]).(*ast.Ident); ok && info.ObjectOf(a0) == pod {
+						stamp = call
+					}
+				}
+			}
+		}
+		if stamp == nil {
+			c.Bad("C07.4-constructor-branches", name, build.Pos(), "the built pod is not stamped by setPodRevision")
+			continue
+		}
+		// the stamp is passed on every path from the build to a return of this pod
+		aU := fn.FromAfterUntil(as, an.StateAfter(as), stamp)
+		unstamped := false
+		ast.Inspect(fi.Decl.Body, func(n ast.Node) bool {
+			if ret, ok := n.(*ast.ReturnStmt); ok && aU.StateBefore(ret).Reachable() {
+				unstamped = true
+			}
+			return true
+		})
+		c.Check(!unstamped, "C07.4-constructor-branches", name, build.Pos(), "every path from the build to a return passes setPodRevision", "a built pod can be returned without its revision label")
+		st := an.StateAtExpr(stamp)
+		S, R := fn.Term(build.Args[0]), fn.Term(stamp.Args[1])
+		okAll := st.Reachable()
+		var why string
+		for _, d := range st.D {
+			one := gf.State{D: []*gf.Disj{d}}
+			isCur, _ := one.Implies(gf.FEq(S, fn.Term(curSet)))
+			isUpd, _ := one.Implies(gf.FEq(S, fn.Term(updSet)))
+			switch {
+			case isCur:
+				r, _ := one.Implies(gf.FEq(R, fn.Term(curRev)))
+				bl, _ := one.Implies(below)
+				if !r {
+					okAll, why = false, "a pod built from the current set is stamped with a different revision name"
+				} else if !bl {
+					okAll, why = false, "a pod is built from the current set although its ordinal is not proven below the partition: "+clip(d.String(), 400)
+				}
+			case isUpd:
+				r, _ := one.Implies(gf.FEq(R, fn.Term(updRev)))
+				bl, _ := one.Implies(gf.Not(below))
+				if !r {
+					okAll, why = false, "a pod built from the update set is stamped with a different revision name"
+				} else if !bl {
+					okAll, why = false, "a pod is built from the update set although its ordinal is not proven at or above the partition: "+clip(d.String(), 400)
+				}
+			default:
+				okAll, why = false, "the pod is built from neither the current nor the update set on some path: "+types.ExprString(build.Args[0])
+			}
+		}
+		c.Check(okAll, "C07.4-pairing", name, build.Pos(), "on every path: current set with current revision below the partition, update set with update revision otherwise", why)
+	}
+	c.Floor("C07.4-constructor-builds", nBuild, 1)
+	// and every return returns a built pod
 	nRet := 0
 	ast.Inspect(fi.Decl.Body, func(n ast.Node) bool {
 		ret, ok := n.(*ast.ReturnStmt)
@@ -100,59 +177,14 @@ func (c *Ctx) versionedConstructor(r *Reconcile) {
 		nRet++
 		name := fmt.Sprintf("%s: return[%d]", fi.Obj.Name(), nRet-1)
 		id, ok := ast.Unparen(ret.Results[0]).(*ast.Ident)
-		if !ok {
-			c.Bad("C07.4-constructor-branches", name, ret.Pos(), "the constructor returns something other than a local pod variable")
-			return true
+		src := (*ast.CallExpr)(nil)
+		if ok {
+			src, _ = reachingDefRHS(fi, info, id, ret).(*ast.CallExpr)
 		}
-		obj := info.ObjectOf(id)
-		// in the same block: pod := newStatefulSetPod(S, ordinal); setPodRevision(pod, R)
-		blk := enclosingBlock(fi.Decl.Body, ret)
-		var fromSet, revArg ast.Expr
-		var build *ast.CallExpr
-		for _, s := range blk.List {
-			switch x := s.(type) {
-			case *ast.AssignStmt:
-				if len(x.Lhs) == 1 && len(x.Rhs) == 1 {
-					if l, ok := x.Lhs[0].(*ast.Ident); ok && info.ObjectOf(l) == obj {
-						if call, ok := x.Rhs[0].(*ast.CallExpr); ok && gf.StaticCallee(info, call) == inner.Obj {
-							build, fromSet = call, call.Args[0]
-							c.Check(fn.Term(call.Args[1]).Key() == fn.Term(ord).Key(), "C07.4-own-ordinal", name, call.Pos(),
-								"the pod is built for the constructor's own ordinal parameter", "the pod is built for a different ordinal than requested")
-						}
-					}
-				}
-			case *ast.ExprStmt:
-				if call, ok := x.X.(*ast.CallExpr); ok && gf.StaticCallee(info, call) == setRev.Obj && build != nil {
-					if a0, ok := ast.Unparen(call.Args[0]).(*ast.Ident); ok && info.ObjectOf(a0) == obj {
-						revArg = call.Args[1]
-					}
-				}
-			}
-		}
-		if build == nil || revArg == nil {
-			c.Bad("C07.4-constructor-branches", name, ret.Pos(), "the returned pod is not built by newStatefulSetPod and stamped by setPodRevision in the same block")
-			return true
-		}
-		st := an.StateBefore(build)
-		isCur := fn.Term(fromSet).Key() == fn.Term(curSet).Key()
-		isUpd := fn.Term(fromSet).Key() == fn.Term(updSet).Key()
-		switch {
-		case isCur:
-			c.Check(fn.Term(revArg).Key() == fn.Term(curRev).Key(), "C07.4-pairing", name, build.Pos(), "current set is stamped with the current revision name",
-				"a pod built from the current set is stamped with a different revision name")
-			want := c.Want(fn, build.Pos(), `($1.Spec.UpdateStrategy.Type == "RollingUpdate" && $1.Spec.UpdateStrategy.RollingUpdate == nil && $2 < int($1.Status.CurrentReplicas)) || ($1.Spec.UpdateStrategy.RollingUpdate != nil && $1.Spec.UpdateStrategy.RollingUpdate.Partition != nil && $2 < int(*$1.Spec.UpdateStrategy.RollingUpdate.Partition))`, curSet, ord)
-			c.Implies(st, want, "C07.4-current-branch-below-partition", name, build.Pos())
-		case isUpd:
-			c.Check(fn.Term(revArg).Key() == fn.Term(updRev).Key(), "C07.4-pairing", name, build.Pos(), "update set is stamped with the update revision name",
-				"a pod built from the update set is stamped with a different revision name")
-			want := c.Want(fn, build.Pos(), `!(($1.Spec.UpdateStrategy.Type == "RollingUpdate" && $1.Spec.UpdateStrategy.RollingUpdate == nil && $2 < int($1.Status.CurrentReplicas)) || ($1.Spec.UpdateStrategy.RollingUpdate != nil && $1.Spec.UpdateStrategy.RollingUpdate.Partition != nil && $2 < int(*$1.Spec.UpdateStrategy.RollingUpdate.Partition)))`, curSet, ord)
-			c.Implies(st, want, "C07.4-update-branch-at-or-above-partition", name, build.Pos())
-		default:
-			c.Bad("C07.4-pairing", name, build.Pos(), "the pod is built from neither the current nor the update set: "+types.ExprString(fromSet))
-		}
+		c.Check(src != nil && gf.StaticCallee(info, src) == inner.Obj, "C07.4-constructor-branches", name, ret.Pos(), "returns a pod built by newStatefulSetPod", "the constructor returns something other than a pod built by newStatefulSetPod")
 		return true
 	})
-	c.Floor("C07.4-constructor-returns", nRet, 2)
+	c.Floor("C07.4-constructor-returns", nRet, 1)
 }
 
 func enclosingBlock(body *ast.BlockStmt, n ast.Node) *ast.BlockStmt {
